@@ -136,11 +136,11 @@ reg('C03',
 reg('C02',
     title='each message unit runs exactly the first command matching its effective header',
     src='c02_dispatch.c',
-    configs={'quick': ['def', 'c90'], 'thorough': ['def', 'noinfo', 'c90']},
+    configs={'quick': ['def', 'c90', 'noinfo', 'heap'], 'thorough': ['def', 'noinfo', 'c90', 'heap']},
     deadline={'quick': 400, 'thorough': 3000},
     level=MC,
     technique='bounded-exhaustive enumeration of (command table, message) pairs executed through SCPI_Input (ASan, tail-poisoned input buffer), compared with a reference interpreter of the header-path and first-match rules',
-    rule={'quick': 'command tables: every ordered pair (110) and triple (990) of a pool of 11 overlapping patterns plus the whole pool in two orders; messages: every sequence of 1..3 units (1..2 for triples) over 31 header spellings (handlers of every second table entry fail with -200) (short/long, letter case, leading colon, optional keyword present/absent, numeric suffix, common, undefined with and without colons, undefined ones that differ from a defined keyword in the last character only) x 2 separator styles; the same for a second vocabulary of 9 patterns and 21 spellings (keywords of 13 and 15 characters, short forms holding a digit or underscore, a keyword that is a prefix of another, numeric suffix behind a 13-character keyword; ordered pairs and the whole pool in two orders) and for a third vocabulary of 7 patterns and 16 spellings whose patterns end in optional keywords with a numeric suffix next to plainer entries overlapping them (OUTPut#[:CHANnel#] / OUTPut#, SOURce#:LEVel[:IMMediate#]? / SOURce#:LEVel?, ...); entry tags beyond 16 bits; a table of 300 entries C0..C299 probed at indices around 127/128, 255/256 and beyond the end, alone and as second unit; non-trivial = every message (each is compared unit by unit with the reference trace)',
+    rule={'quick': 'command tables: every ordered pair (110) and triple (990) of a pool of 11 overlapping patterns plus the whole pool in two orders; messages: every sequence of 1..3 units (1..2 for triples) over 31 header spellings (handlers of every second table entry fail with -200) (short/long, letter case, leading colon, optional keyword present/absent, numeric suffix, common, undefined with and without colons, undefined ones that differ from a defined keyword in the last character only) x 2 separator styles; the same for a second vocabulary of 9 patterns and 21 spellings (keywords of 13 and 15 characters, short forms holding a digit or underscore, a keyword that is a prefix of another, numeric suffix behind a 13-character keyword; ordered pairs and the whole pool in two orders) and for a third vocabulary of 7 patterns and 16 spellings whose patterns end in optional keywords with a numeric suffix next to plainer entries overlapping them (OUTPut#[:CHANnel#] / OUTPut#, SOURce#:LEVel[:IMMediate#]? / SOURce#:LEVel?, ...); entry tags beyond 16 bits; also in the build without error texts and in the static-heap build (a text that no longer fits the info heap may be dropped, its -113 may not); a table of 300 entries C0..C299 probed at indices around 127/128, 255/256 and beyond the end, alone and as second unit; non-trivial = every message (each is compared unit by unit with the reference trace)',
           'thorough': 'as quick with 1..4 units (1..3 for triples and for the second vocabulary, which also gets its triples), additionally in the no-info build'},
     assumptions=['after a common (*) command the next unit uses its header as written, as the statement says',
                  'the -113 text only has to contain the header as written'],
